@@ -58,7 +58,35 @@ func c09Next(g *prog.Gen, idx int, hist []*prog.Step) *prog.Op {
 	// every other program ends its random part with a fixed epilogue on one key: a null version, then a delete
 	// marker, then a new version, then the deletion of that new version by id — issued back to back, so that
 	// the archive copies are made within the same clock tick; the marker must be the one re-exposed
-	if idx%2 == 1 && n >= total && n < total+6 {
+	if idx%4 == 3 && n >= total && n < total+6 {
+		// second epilogue: a version with an id, then the null version (written while Suspended), then a new
+		// version, deleted by id: the null version — newer than the id version — must be re-exposed
+		k := keys[0]
+		switch n - total {
+		case 0:
+			return &prog.Op{Kind: "putVersioning", Caller: "root", B: b, On: true}
+		case 1:
+			return &prog.Op{Kind: "putObject", Caller: "root", B: b, K: k, Put: g.PutSpec(), Valid: true}
+		case 2:
+			return &prog.Op{Kind: "putVersioning", Caller: "root", B: b, On: false}
+		case 3:
+			return &prog.Op{Kind: "putObject", Caller: "root", B: b, K: k, Put: &prog.PutSpec{Data: []prog.Seg{{Seed: 7800 + idx, Off: 0, Len: 9}}}, Valid: true}
+		case 4:
+			return &prog.Op{Kind: "putVersioning", Caller: "root", B: b, On: true}
+		case 5:
+			return &prog.Op{Kind: "putObject", Caller: "root", B: b, K: k, Put: &prog.PutSpec{Data: []prog.Seg{{Seed: 7900 + idx, Off: 0, Len: 4}}}, Valid: true}
+		}
+	}
+	if idx%4 == 3 && n == total+6 {
+		if vs := c09KnownVids(hist)[keys[0]]; len(vs) > 0 {
+			return &prog.Op{Kind: "deleteObject", Caller: "root", B: b, K: keys[0], Vid: vs[len(vs)-1]}
+		}
+		return &prog.Op{Kind: "getObject", Caller: "root", B: b, K: keys[0]}
+	}
+	if idx%4 == 3 {
+		total += 7
+	}
+	if idx%4 == 1 && n >= total && n < total+6 {
 		k := keys[0]
 		switch n - total {
 		case 0:
@@ -79,7 +107,7 @@ func c09Next(g *prog.Gen, idx int, hist []*prog.Step) *prog.Op {
 			return &prog.Op{Kind: "deleteObject", Caller: "root", B: b, K: k, Vid: vs[len(vs)-1]}
 		}
 	}
-	if idx%2 == 1 {
+	if idx%4 == 1 {
 		total += 6
 	}
 	if n >= total {
